@@ -2,7 +2,7 @@
    Model: Mpc/MpfSem.v (registers, instructions, [run rnd]); programs: Mpc/Gen/MpcGen.v
    (traced from the current mpc.c, one per public function and aliasing pattern). *)
 Require Import Reals List ZArith.
-Require Import MPSV.Mpc.MpfSem MPSV.Mpc.MpcErr MPSV.Mpc.Gen.MpcGen MPSV.Mpc.MpcProps.
+Require Import MPSV.Mpc.MpfSem MPSV.Mpc.MpcErr MPSV.Mpc.MpcPow MPSV.Mpc.Gen.MpcGen MPSV.Mpc.MpcProps.
 Import ListNotations.
 Open Scope R_scope.
 
@@ -180,13 +180,10 @@ Theorem C13_mpc_mod_err :
 Proof. exact (fun rnd u H Hu s => mod_prog_err rnd u H Hu s I). Qed.
 Print Assumptions C13_mpc_mod_err.
 
-(* mpc_pow_si: PARTIAL.  Proved: the error recurrences of its two loop steps on approximate operands
-   (relative errors k, k1, k2 in modulus): squaring  k -> 3u(1+k)^2 + k(k+2),  product
-   (k1,k2) -> 17u(1+k1)(1+k2) + k1(1+k2) + k2.  Not mechanised: the induction over the binary expansion
-   of the exponent that iterates them (the traced programs for the exponents -3,-1,0,1,2,3,5,6 have
-   exactness theorems; their error is checked by the differential harness only).  Note that the
-   recurrence doubles k at every squaring: the bound for c^i grows like |i|*u, not log2|i|*u. *)
-Theorem C13_mpc_pow_si_step_err_partial :
+(* mpc_pow_si: error recurrences of its two loop steps on approximate operands (relative errors k, k1, k2
+   in modulus): squaring  k -> 3u(1+k)^2 + k(k+2),  product (k1,k2) -> 17u(1+k1)(1+k2) + k1(1+k2) + k2.
+   They are iterated over the binary expansion of the exponent in C13_mpc_pow_si_err below. *)
+Theorem C13_mpc_pow_si_step_err :
   forall rnd u, std_model rnd u ->
   (forall (r1 r2 r3 r4 r5 : reg) x1 x2 a1 a2 k, 0 <= k ->
     (x1 - a1) * (x1 - a1) + (x2 - a2) * (x2 - a2) <= (k * k) * (a1 * a1 + a2 * a2) ->
@@ -207,4 +204,102 @@ Theorem C13_mpc_pow_si_step_err_partial :
     let k' := 17 * u * (k1 * (k2 + 1) + k2 + 1) + (k1 * (k2 + 1) + k2) in
     (re - er) * (re - er) + (im - ei) * (im - ei) <= (k' * k') * (er * er + ei * ei)).
 Proof. exact (fun rnd u H => conj (pow_sqr_step rnd u H) (pow_mul_step rnd u H)). Qed.
-Print Assumptions C13_mpc_pow_si_step_err_partial.
+Print Assumptions C13_mpc_pow_si_step_err.
+
+(* ------------------------------------------------------------------ deepening: pow_si for every exponent, remaining helpers, conversions *)
+(* The loop of mpc_pow_si as a Coq function producing the instruction sequence; the 16 traced programs
+   (8 exponents x {rc != c, rc = c}) are instances of it. *)
+Theorem C13_pow_si_model_instances :
+  pow_si_model (csrc false) (-3) = prog_mpc_pow_si_m3_p0 /\ pow_si_model (csrc true) (-3) = prog_mpc_pow_si_m3_p1 /\
+  pow_si_model (csrc false) (-1) = prog_mpc_pow_si_m1_p0 /\ pow_si_model (csrc true) (-1) = prog_mpc_pow_si_m1_p1 /\
+  pow_si_model (csrc false) 0 = prog_mpc_pow_si_0_p0 /\ pow_si_model (csrc true) 0 = prog_mpc_pow_si_0_p1 /\
+  pow_si_model (csrc false) 1 = prog_mpc_pow_si_1_p0 /\ pow_si_model (csrc true) 1 = prog_mpc_pow_si_1_p1 /\
+  pow_si_model (csrc false) 2 = prog_mpc_pow_si_2_p0 /\ pow_si_model (csrc true) 2 = prog_mpc_pow_si_2_p1 /\
+  pow_si_model (csrc false) 3 = prog_mpc_pow_si_3_p0 /\ pow_si_model (csrc true) 3 = prog_mpc_pow_si_3_p1 /\
+  pow_si_model (csrc false) 5 = prog_mpc_pow_si_5_p0 /\ pow_si_model (csrc true) 5 = prog_mpc_pow_si_5_p1 /\
+  pow_si_model (csrc false) 6 = prog_mpc_pow_si_6_p0 /\ pow_si_model (csrc true) 6 = prog_mpc_pow_si_6_p1.
+Proof. exact pow_si_instances. Qed.
+Print Assumptions C13_pow_si_model_instances.
+
+(* Every exponent i (negative ones through mpc_inv, c <> 0), rc != c (alias = false) and rc = c (alias = true):
+   |res - c^i| <= 68 (|i|+1) u |c^i|   while   34 (|i|+1) u <= 1/2   and u <= 1/16.
+   [close k x a] is  |x - a|^2 <= k^2 |a|^2  on pairs. *)
+Theorem C13_mpc_pow_si_err :
+  forall rnd u, std_model rnd u -> u <= / 16 ->
+  forall (alias : bool) (i : Z) (s : store),
+    ((i < 0)%Z -> 0 < cn2 (cval alias s)) ->
+    17 * INR (2 * Z.abs_nat i + 2) * u <= / 2 ->
+    close (34 * INR (2 * Z.abs_nat i + 2) * u)
+          (rcv (run rnd (pow_si_model (csrc alias) i) s)) (pow_si_val (cval alias s) i).
+Proof. exact pow_si_model_err. Qed.
+Print Assumptions C13_mpc_pow_si_err.
+
+(* ... where the exact value of the square-and-multiply recursion is the |i|-th power (repeated complex
+   multiplication) of c, resp. of 1/c *)
+Theorem C13_pow_si_val_is_power :
+  forall a i, pow_si_val a i = cpown (if (i <? 0)%Z then cinv a else a) (Z.abs_nat i).
+Proof. exact pow_si_val_pow. Qed.
+Print Assumptions C13_pow_si_val_is_power.
+
+Example C13_pow_si_concrete : pow_si_val (2, 0) 5 = (32, 0).
+Proof. exact pow_si_example. Qed.
+
+(* helpers with at most two modelled roundings per component: rot, flip (both aliasings) and the op= forms
+   rot_eq, flip_eq, smod_eq, mod_eq: 2u *)
+Theorem C13_mpc_two_rounding_err :
+  Forall (fun e => forall rnd u, std_model rnd u -> u <= 1 -> forall s, pre (snd e) s ->
+     match outs (snd e) with
+     | [(dr, er); (di, ei)] =>
+         let s' := run rnd (fst e) s in
+         (s' dr - er s) * (s' dr - er s) + (s' di - ei s) * (s' di - ei s)
+           <= (2 * u) * (2 * u) * (er s * er s + ei s * ei s)
+     | _ => False end) entries_comp2.
+Proof. exact comp2_all. Qed.
+Print Assumptions C13_mpc_two_rounding_err.
+
+(* mpc_inv2 (reciprocal of the squared modulus, then two products): 7u *)
+Theorem C13_mpc_inv2_err :
+  Forall (fun e => forall rnd u, std_model rnd u -> u <= / 16 -> forall s, pre (snd e) s ->
+     match outs (snd e) with
+     | [(dr, er); (di, ei)] =>
+         let s' := run rnd (fst e) s in
+         (s' dr - er s) * (s' dr - er s) + (s' di - ei s) * (s' di - ei s)
+           <= (7 * u) * (7 * u) * (er s * er s + ei s * ei s)
+     | _ => False end) entries_inv2.
+Proof. exact inv2_all. Qed.
+Print Assumptions C13_mpc_inv2_err.
+
+(* mpc_f_div and mpc_ui_div (inv, then scaling of both components), both aliasings: 8u *)
+Theorem C13_mpc_f_div_ui_div_err :
+  Forall (fun e => forall rnd u, std_model rnd u -> u <= / 16 -> forall s, pre (snd e) s ->
+     match outs (snd e) with
+     | [(dr, er); (di, ei)] =>
+         let s' := run rnd (fst e) s in
+         (s' dr - er s) * (s' dr - er s) + (s' di - ei s) * (s' di - ei s)
+           <= (8 * u) * (8 * u) * (er s * er s + ei s * ei s)
+     | _ => False end) entries_invscale.
+Proof. exact invscale_all. Qed.
+Print Assumptions C13_mpc_f_div_ui_div_err.
+
+(* conversions at any precision p >= 1: truncation of the integer mantissa to p bits *)
+Theorem C13_conv_truncp :
+  forall p m : Z, (1 <= p)%Z ->
+  let '(q, s) := truncp p m in
+  (0 <= s /\ 2 ^ (p - 1) * Z.abs (m - q * 2 ^ s) <= Z.abs m /\ Z.abs (q * 2 ^ s) <= Z.abs m
+   /\ Z.sgn q = Z.sgn m /\ Z.abs q < 2 ^ p /\ (m = 0 <-> q = 0))%Z.
+Proof. exact truncp_spec. Qed.
+Print Assumptions C13_conv_truncp.
+
+(* mpc_set_cplx / mpc_set_d / mpf_set_rdpe's mpf_set_d: a double's mantissa (|q| < 2^53) is stored exactly in any
+   destination of at least 53 bits; mpc_get_cplx / mpc_get_cdpe are truncp 53 per component (C13_conv_get_rdpe);
+   double -> mpf -> double is the identity *)
+Theorem C13_conv_set_d_exact :
+  forall p q : Z, (53 <= p)%Z -> (Z.abs q < 2 ^ 53)%Z -> truncp p q = (q, 0%Z).
+Proof. exact set_d_exact. Qed.
+Print Assumptions C13_conv_set_d_exact.
+
+Theorem C13_conv_roundtrip :
+  forall p q : Z, (53 <= p)%Z -> (Z.abs q < 2 ^ 53)%Z ->
+  let '(q1, s1) := truncp p q in truncp 53 q1 = (q, 0%Z) /\ s1 = 0%Z.
+Proof. exact get_set_roundtrip. Qed.
+Print Assumptions C13_conv_roundtrip.
